@@ -329,7 +329,22 @@ func (w *world) class() string {
 	case cend && send:
 		return "both-ended"
 	}
-	return fmt.Sprintf("open(c=%s,s=%s,cclosed=%v,sclosed=%v,a=%v,x=%v)", shipx.StateName(w.cli.state()), shipx.StateName(w.srv.state()), cend, send, w.approved, w.cancelled)
+	// the message at the head of each direction is part of the class: the concurrent-stimulus part takes one
+	// representative per class, and "which message is about to be delivered" decides what can race
+	head := func(e *end) string {
+		if len(e.out) == 0 {
+			return "-"
+		}
+		if e.out[0].close {
+			return "CLOSE"
+		}
+		d := shipx.Describe(e.out[0].data)
+		if len(d) > 24 {
+			d = d[:24]
+		}
+		return d
+	}
+	return fmt.Sprintf("open(c=%s,s=%s,cclosed=%v,sclosed=%v,a=%v,x=%v,qc=%s,qs=%s)", shipx.StateName(w.cli.state()), shipx.StateName(w.srv.state()), cend, send, w.approved, w.cancelled, head(w.cli), head(w.srv))
 }
 
 func (w *world) safety(ev string) {
@@ -344,6 +359,18 @@ func (w *world) safety(ev string) {
 		for _, id := range e.P.ShipIDs {
 			if id != want {
 				simrt.Fail("C03|wrong-ship-id", "endpoint %s learned SHIP ID %q, the peer's is %q", e.name, id, want)
+			}
+		}
+		// an endpoint that gave up (its end was reported) has made its choice: it neither sets up the remote device
+		// nor reports completion afterwards ("one side completed while the other gave up" includes one endpoint doing both)
+		endedAt := -1
+		for i, ev2 := range e.L.Evs {
+			if ev2.Kind == "closed" && endedAt < 0 {
+				endedAt = i
+			}
+			if endedAt >= 0 && i > endedAt && (ev2.Kind == "setup" || (ev2.Kind == "state" && ev2.N == int(model.SmeStateComplete))) {
+				simrt.Fail("C03|completed-after-giving-up", "endpoint %s reported the end of the connection and afterwards %s (event %s)", e.name, ev2.String(), ev)
+				break
 			}
 		}
 		if e.complete() && e.P.SetupCount != 1 {
